@@ -22,7 +22,7 @@ def make_spec(stream, rng, edge_index=None):
     elif stream == "adversary":
         spec = simgen.gen_spec(rng, pairing="queue")
         spec["scheduling"] = {"kind": "adversary",
-                              "mode": rng.choice(["random", "busy", "dup", "foreign", "resched", "unready", "static", "static"]),
+                              "mode": rng.choice(["random", "busy", "dup", "foreign", "resched", "unready", "static", "static", "reserve", "reserve"]),
                               "seed": rng.randint(0, 10 ** 6)}
         if rng.random() < 0.5:
             # ingests that overlap and end at different times, while earlier workflows are being scheduled
@@ -242,7 +242,7 @@ def make_spec(stream, rng, edge_index=None):
         spec["delay"] = None
         obs = spec["observations"]
         kinds = ["threshold", "handover", "threshold2", "hotfit", "coldfit", "machines", "ingestlimit", "arrays", "rate",
-                 "coldshort", "ingestlimit3", "ratefrac", "emptywf", "stalecheck", "hugecap"]
+                 "coldshort", "ingestlimit3", "ratefrac", "emptywf", "stalecheck", "hugecap", "doubleadmit"]
         which = kinds[edge_index % len(kinds)] if edge_index is not None else rng.choice(kinds)
         obs.sort(key=lambda o: o["start"])
         if len(obs) < 2 and which in ("threshold2", "hotfit", "ingestlimit", "arrays", "handover"):
@@ -357,6 +357,38 @@ def make_spec(stream, rng, edge_index=None):
             spec["cold"] = {"capacity": 200, "rate": 50}
             if spec["scheduling"]["kind"] == "batch":
                 spec["scheduling"] = {"kind": "batch", "partitions": 1, "min": 1, "split": None}
+        elif which == "doubleadmit":
+            # two observations falling due in the same step: each fits the free machines on its own, both together
+            # do not, and together they are within the ingest-machine limit (arrays and buffer suffice for both)
+            wf = lambda: simgen.gen_workflow(rng, 3, [m["flops"] for m in spec["machines"]])
+            variant = ((edge_index // len(kinds)) % 2) if edge_index is not None else rng.randrange(2)
+            db, dc = rng.choice([(2, 2), (1, 2), (2, 1), (2, 3), (3, 3)])
+            t0 = rng.choice([0, 1, 4])
+            new = []
+            if variant == 0:
+                free = max(db, dc) + rng.randint(0, min(db, dc) - 1)
+                nm = free
+            else:
+                da = rng.randint(1, 2)
+                free = max(db, dc) + rng.randint(0, min(db, dc) - 1)
+                nm = free + da
+                k = rng.randint(1, 2)
+                new.append(dict(obs[0], name="a", start=t0, duration=k + rng.randint(3, 5), ingest_demand=da, workflow=wf()))
+                t0 += k
+            new.append(dict(obs[0], name="b", start=t0, duration=rng.randint(1, 3), ingest_demand=db, workflow=wf()))
+            new.append(dict(obs[0], name="c", start=t0, duration=rng.randint(1, 3), ingest_demand=dc, workflow=wf()))
+            spec["observations"] = obs = new
+            for o in obs:
+                o["demand"] = 1
+                o["rate"] = max(1, min(o["rate"], 3))
+            spec["total_arrays"] = len(obs)
+            spec["machines"] = [{"id": "m%d" % i, "flops": rng.choice([5, 10]), "bw": 2} for i in range(nm)]
+            spec["max_ingest"] = sum(o["ingest_demand"] for o in obs) + rng.choice([0, 1])
+            spec["hot"]["rate"] = max(spec["hot"]["rate"], 3)
+            if spec["scheduling"]["kind"] == "batch":
+                spec["scheduling"] = {"kind": "batch", "partitions": 1, "min": 1, "split": None}
+            if spec["scheduling"]["kind"] == "dynamic":
+                spec["planning"], spec["scheduling"] = "batch", {"kind": "queue"}
         elif which == "hugecap":
             # tiers many orders of magnitude larger than what is stored in them (exact integers)
             spec["hot"]["capacity"] = 4 * 10 ** 12
